@@ -43,12 +43,13 @@ Definition chk_copier
   status_eqb (c_status s) st && zlist_eqb (copier_dst s) dst
   && list_eqb pair_eqb (p_sent (m_pio (c_m s))) sent.
 
-(* the same with the proposed repair of the sparse copy *)
+(* the same with the repair of the sparse copy (destination extended to total_bytes) *)
 Definition chk_copier_fixed
   (c : Z * Z * Z * bool * list (Z * Z) * list (nat * creply) * list (Z * Z) * cstatus * bytes) : bool :=
   let '(bs, mx, total, sparse, ranges, sched, sent, st, dst) := c in
   let s := copier_run bs mx total sparse true ranges (singles sched) in
-  status_eqb (c_status s) st && zlist_eqb (copier_dst s) dst.
+  status_eqb (c_status s) st && zlist_eqb (copier_dst s) dst
+  && list_eqb pair_eqb (p_sent (m_pio (c_m s))) sent.
 
 (* _request_ranges over a file object whose seek implements SEEK_DATA/SEEK_HOLE for the extents *)
 Definition chk_ranges (c : list (Z * Z) * Z * Z * list (Z * Z)) : bool :=
@@ -74,3 +75,9 @@ Definition chk_fileobj
   let '(app, rlen, wlen, maxr, cap, F0, ops, got, Fend) := c in
   let '((_, F'), xs) := fo_run (mkFobj (if app then None else Some 0) app rlen wlen maxr cap, F0) ops in
   list_eqb fres_eqb xs got && zlist_eqb F' Fend.
+
+(* SFTPClient._copy: follow_symlinks, (type, size) from lstat, (type, size) from stat, and the
+   total_bytes the implementation handed to _SFTPFileCopier (None: no copier started) *)
+Definition chk_copy_total (c : bool * (Z * Z) * (Z * Z) * option Z) : bool :=
+  let '(follow, l, s, got) := c in
+  option_eqb Z.eqb (copy_total follow (mkFattrs (fst l) (snd l)) (mkFattrs (fst s) (snd s))) got.
